@@ -212,12 +212,12 @@ def to_real(ast):
     if kind == "noop":
         return q.noop()
     if kind == "exists":
-        return q[ast[2]].exists()
+        return _key(q, ast[2]).exists()
     for part in ast[2]:
         if isinstance(part, tuple):
             q = q.map(MAPS[part[1]])
         else:
-            q = q[part]
+            q = _key(q, part)
     if kind == "cmp":
         op, rhs = ast[3], rhs_real(ast[4])
         if op == "==":
@@ -241,6 +241,13 @@ def to_real(ast):
     if kind == "test":
         return q.test(TESTS[ast[3]], *ast[4])
     raise ValueError(kind)
+
+
+def _key(q, key):
+    """Both documented spellings of a key: attribute access and item access (deterministic mix)."""
+    if key.isidentifier() and not key.startswith("_") and len(key) % 2 == 1 and not hasattr(type(q), key):
+        return getattr(q, key)
+    return q[key]
 
 
 class _Fail(Exception):
